@@ -170,3 +170,18 @@ Example ex5_lost_outcomes :
             AR.ORet AR.PBad AR.PTrans; AR.ORet AR.PBad AR.PPerm]
   = [EE.OOk; EE.OErr; EE.OPerm; EE.OWrongType; EE.OWrongType].
 Proof. reflexivity. Qed.
+
+(* ---- item 5, lifting: the retried action ASeq 1 1 0 (1 retry) of coq/engine's REAL trace (149 events, harness case
+        final-220): its ten events, accepted by the engine's dispatch and by ActionAuto *)
+From Coercion.Engine Require Shape Accept AutoExamples.
+From Coercion.Glue Require Import GlueActionLift.
+
+Example ex5_real_trace_action :
+  Shape.retries_of AutoExamples.ex_shape (ASeq 1 1 0) = Some 1 /\
+  proj_trace 1 1 0 AutoExamples.ex_trace =
+    [XWrite Running 0 false; XStart; XEnd EE.OErr; XWrite Running 1 false; XStart; XEnd EE.OOk;
+     XWrite Running 2 true; XWrite Completed 2 true; XWrite Completed 2 true; XWrite Completed 2 true] /\
+  option_map (fun s => (e_a s, efinal s)) (erun 1 (proj_trace 1 1 0 AutoExamples.ex_trace))
+    = Some (EA.ADone true 2, true) /\
+  AA.accepted 1 (map ev_of (proj_trace 1 1 0 AutoExamples.ex_trace)) = true.
+Proof. vm_compute. repeat split; reflexivity. Qed.
